@@ -122,6 +122,7 @@ func c08One(c *engine.Case, b []byte) {
 
 func runC08(r *engine.Run) {
 	r.Rule = "E1 control-byte abstraction of 'all byte strings': the decoder branches only on the length, the MHDR byte, byte 1 (rejoin type), the FCtrl byte (FOptsLen nibble) and whether the FPort byte is zero; every other byte is copied. Enumerated: MHDR (quick: the 32 values with RFU bits zero + 8 with RFU bits set; thorough: all 256) x length (quick 0..40; thorough 0..80 and 81..256 step 5) x FCtrl byte (quick: 16 FOptsLen x 4 flag nibbles; thorough: all 256) x byte[1] in {0,1,2,3,255} x byte at the candidate FPort position in {0,1,255} x filler {position-distinct, all 0xFF}. The data-independence claim is itself tested: for 8 base frames per MType every position x all 256 byte values. Oracle: accepted (with MHDR bits 4:2 zero) => re-encodes without error to exactly the input, decodes again to a deep-equal frame, and every applicable Validate*MIC returns a boolean. Non-trivial: a distinct byte string the decoder accepted."
+	frameHistory(r, 2)
 	r.Assume("coverage-guided fuzzing named in the quantifier is a different family; it is replaced by the control-byte abstraction plus the per-position sweeps that test the abstraction")
 	r.Assume("strings with reserved MHDR bits set are decoded and recorded, not judged (excluded by the property)")
 
